@@ -1,7 +1,38 @@
 (** C20 -- behaviour is the same with and without the standard library.
-    There is no theorem specific to C20: the models over which C01/C02/C05/C06/C17 are proved are
-    regenerated from regions of the source that contain no code selected by the `std` feature
-    (checks/C20.py verifies this on every run), so those theorems describe both builds; the
-    cfg-dependent glue (error type, `easy_parse` vs `parse`, JIT memory) is compared by running the
-    two builds on the same corpora. *)
-From RbpfV Require Import Verifier Interp.
+    PARTIAL.  (1) The models over which C01/C02/C05/C06/C17 are proved are regenerated from regions of the source that
+    contain no code selected by the `std` feature (checks/C20.py verifies this on every run), so those theorems describe
+    both builds.  (2) The cfg-dependent JIT glue is modelled from both of its versions (coq/gen/JitMem.v, coq/gen/LibWrap.v;
+    theories/JitMemProofs.v): the two JitMemory::new compute the same buffer size and make the same passes, the no_std one
+    refuses caller-supplied memory exactly when it is too short or not page-aligned, and every VM kind compiles with the same
+    flags in both builds.  (3) The rest of the cfg-dependent glue (error type, `easy_parse` vs `parse`, hash maps) is compared
+    by running the two builds on the same corpora. *)
+From Coq Require Import ZArith Bool.
+From RbpfV Require Import MachInt Verifier Interp JitMemProofs.
+From RbpfV.gen Require Import JitMem LibWrap.
+Open Scope Z_scope.
+
+(** both builds size the code buffer alike: a multiple of the page size, at least one page, at least the code length *)
+Theorem C20_jit_memory_size : forall code_len, 0 <= code_len -> code_len + 8192 < 2 ^ 64 ->
+  gen_jit_mem_size_no_std code_len = gen_jit_mem_size_std code_len /\
+  exists size, gen_jit_mem_size_std code_len = Ok size /\ size mod 4096 = 0 /\ code_len <= size /\ 4096 <= size.
+Proof. exact mem_size_both. Qed.
+
+(** the no_std build turns the caller's memory down exactly when it is shorter than that size or not page-aligned: memory
+    such as the default build allocates for itself (page-aligned, of that size) is always accepted *)
+Theorem C20_no_std_memory_refusal : forall ptr len size,
+  gen_jit_mem_refuses_no_std ptr len size = Ok ((len <? size) || negb (ptr mod 4096 =? 0)).
+Proof. exact no_std_refusal. Qed.
+Theorem C20_no_std_accepts_what_std_allocates : forall ptr len size,
+  ptr mod 4096 = 0 -> size <= len -> gen_jit_mem_refuses_no_std ptr len size = Ok false.
+Proof. exact no_std_accepts_aligned. Qed.
+
+(** each VM kind asks for the same prologue variant in both builds *)
+Theorem C20_jit_flags_agree :
+  gen_jit_flags_mbuff_no_std = gen_jit_flags_mbuff /\ gen_jit_flags_fixed_no_std = gen_jit_flags_fixed /\
+  gen_jit_flags_raw_no_std = gen_jit_flags_raw /\ gen_jit_flags_nodata_no_std = gen_jit_flags_nodata.
+Proof. exact jit_flags_agree. Qed.
+
+Print Assumptions C20_jit_memory_size.
+Print Assumptions C20_no_std_memory_refusal.
+Print Assumptions C20_no_std_accepts_what_std_allocates.
+Print Assumptions C20_jit_flags_agree.
